@@ -56,3 +56,145 @@ def _has_nan_float_value(s):
             if isinstance(v, float) and v != v:
                 return True
     return False
+
+
+# ---------------------------------------------------------------------------------------------
+# C01 classes
+
+def _subs(v):
+    return _walk(v["py_schema"]) if "py_schema" in v else []
+
+
+def _num(x, default):
+    return default if x is Nil else x
+
+
+def obviously_unsat(s):
+    """cheap sufficient test that a schema accepts nothing"""
+    from d42.declaration.types import FloatSchema, IntSchema, ListSchema, StrSchema
+    p = s.props
+    if isinstance(s, (IntSchema, FloatSchema)):
+        mn, mx, val = p.get("min"), p.get("max"), p.get("value")
+        if mn is not Nil and mx is not Nil and not (mn <= mx):
+            return True
+        if isinstance(s, FloatSchema):
+            for b in (mn, mx):
+                if isinstance(b, float) and b != b:
+                    return True
+            if isinstance(val, float) and val != val:
+                return True
+        return False
+    if isinstance(s, (StrSchema, ListSchema)):
+        ln, mn, mx = p.get("len"), p.get("min_len"), p.get("max_len")
+        if ln is not Nil and ln < 0:
+            return True
+        if mx is not Nil and mx < 0:
+            return True
+        if mn is not Nil and mx is not Nil and mn > mx:
+            return True
+        if isinstance(s, StrSchema):
+            al, sub = p.get("alphabet"), p.get("substr")
+            if al is not Nil and sub is not Nil and any(c not in al for c in sub):
+                return True
+            need = len(sub) if sub is not Nil else 0
+            if ln is not Nil and ln < need:
+                return True
+            if mx is not Nil and mx < need:
+                return True
+            if al == "" and ((ln is not Nil and ln > 0) or (mn is not Nil and mn > 0)):
+                return True
+    return False
+
+
+def class_K2_ellipsis_list_exact_len(v):
+    from d42.declaration.types import ListSchema
+    for s in _subs(v):
+        if isinstance(s, ListSchema):
+            els, ln = s.props.get("elements"), s.props.get("len")
+            if els is not Nil and ln is not Nil and any(x is Ellipsis for x in els):
+                if ln > sum(1 for x in els if x is not Ellipsis):
+                    return True
+    return False
+
+
+def witness_K2_ellipsis_list_exact_len():
+    from d42 import fake, schema, validate
+    s = schema.list([schema.int, ...]).len(3)
+    return validate(s, [1, 2, 3]).has_errors() is False and validate(s, fake(s)).has_errors()
+
+
+def class_K3_empty_alphabet(v):
+    from d42.declaration.types import StrSchema
+    return any(isinstance(s, StrSchema) and s.props.get("alphabet") == "" for s in _subs(v))
+
+
+def witness_K3_empty_alphabet():
+    from d42 import schema, validate
+    from . import scripted_random as SR
+    s = schema.str.alphabet("")
+    (k, val), _ = SR.generate(s, SR.make_policy("hi", None))
+    return (not validate(s, "").has_errors()) and k == "exc"
+
+
+def class_K4_dead_alternative(v):
+    return any(obviously_unsat(s) for s in _subs(v))
+
+
+def witness_K4_dead_alternative():
+    from d42 import schema, validate
+    from . import scripted_random as SR
+    s = schema.any(schema.int.min(5).max(3), schema.str("x"))
+    (k, val), _ = SR.generate(s, SR.make_policy("lo", None))
+    return (not validate(s, "x").has_errors()) and k == "exc"
+
+
+def _float_bounds(s):
+    from d42.generation._consts import FLOAT_MAX, FLOAT_MIN
+    mn, mx = s.props.get("min"), s.props.get("max")
+    lo = FLOAT_MIN if mn is Nil else mn
+    hi = FLOAT_MAX if mx is Nil else mx
+    return lo, hi
+
+
+def class_K5_float_span_overflow(v):
+    from d42.declaration.types import FloatSchema
+    for s in _subs(v):
+        if isinstance(s, FloatSchema) and s.props.get("value") is Nil and s.props.get("precision") is Nil:
+            lo, hi = _float_bounds(s)
+            if isinstance(lo, float) and isinstance(hi, float) and not math.isfinite(hi - lo):
+                return True
+    return False
+
+
+def witness_K5_float_span_overflow():
+    from d42 import schema, validate
+    from . import scripted_random as SR
+    s = schema.float.min(-1.5e308).max(1.5e308)
+    with SR.scripted(SR.make_policy("lo", None)) as m:
+        pass
+    import random
+    a, b = -1.5e308, 1.5e308
+    r = a + (b - a) * 0.5      # what random.uniform computes
+    return (not math.isfinite(r)) and validate(s, r).has_errors()
+
+
+def class_K11_no_grid_point(v):
+    from decimal import Decimal
+    from d42.declaration.types import FloatSchema
+    for s in _subs(v):
+        if isinstance(s, FloatSchema) and s.props.get("value") is Nil and s.props.get("precision") is not Nil:
+            lo, hi = _float_bounds(s)
+            if not (math.isfinite(lo) and math.isfinite(hi)) or lo > hi:
+                continue
+            sc = 10 ** s.props.get("precision")
+            if math.ceil(Decimal(repr(float(lo))) * sc) > math.floor(Decimal(repr(float(hi))) * sc):
+                return True
+    return False
+
+
+def witness_K11_no_grid_point():
+    from d42 import schema, validate
+    from . import scripted_random as SR
+    s = schema.float.min(0.11).max(0.19).precision(1)
+    (k, val), _ = SR.generate(s, SR.make_policy("lo", None))
+    return (not validate(s, 0.15).has_errors()) and k == "exc"
